@@ -402,4 +402,225 @@ theorem expected_sound (o : Op) (r v : Val) : (expectedTmpl o).eval r v = Spec.r
   cases o <;> simp [expectedTmpl, Tmpl.eval, Hole.pick, Cel.binOp, Cel.method, Cel.func, Spec.rel]
   all_goals (try (cases Spec.memRel r v <;> simp))
 
+/-! ## glob: what the pieces of a pattern accept (round 2) -/
+
+
+/-- an ordinary character of a glob pattern -/
+def isGlobPlain (c : Char) : Bool := c != '*' && c != '?' && c != '['
+
+theorem parseGlobGo_plain (p : Str) (hp : p.all isGlobPlain = true) (rest : Str) :
+    parseGlobGo (p ++ rest) 0 = (parseGlobGo rest 0).map (p.map GItem.lit ++ ·) := by
+  induction p with
+  | nil => simp
+  | cons c tl ih =>
+    simp only [List.all_cons, Bool.and_eq_true] at hp
+    obtain ⟨hc, htl⟩ := hp
+    simp only [isGlobPlain, Bool.and_eq_true, bne_iff_ne, ne_eq] at hc
+    obtain ⟨⟨h1, h2⟩, h3⟩ := hc
+    simp only [List.cons_append, parseGlobGo, h1, h2, h3, if_false, ih htl, Option.map_map]
+    cases parseGlobGo rest 0 <;> simp
+
+theorem parseGlob_plain (p : Str) (hp : p.all isGlobPlain = true) : parseGlob p = some (p.map .lit) := by
+  have := parseGlobGo_plain p hp []
+  simpa [parseGlob, parseGlobGo] using this
+
+theorem parseGlob_plain_star (p : Str) (hp : p.all isGlobPlain = true) :
+    parseGlob (p ++ ['*']) = some (p.map .lit ++ [.star]) := by
+  have := parseGlobGo_plain p hp ['*']
+  simpa [parseGlob, parseGlobGo] using this
+
+theorem parseGlob_star_plain (p : Str) (hp : p.all isGlobPlain = true) :
+    parseGlob ('*' :: p) = some (.star :: p.map .lit) := by
+  have := parseGlob_plain p hp
+  simp only [parseGlob] at this
+  simp [parseGlob, parseGlobGo, this]
+
+theorem parseGlob_star_plain_star (p : Str) (hp : p.all isGlobPlain = true) :
+    parseGlob ('*' :: (p ++ ['*'])) = some (.star :: (p.map .lit ++ [.star])) := by
+  have := parseGlob_plain_star p hp
+  simp only [parseGlob] at this
+  simp [parseGlob, parseGlobGo, this]
+
+theorem any_range_succ_of (f : Nat → Bool) (n k : Nat) (hk : k ≤ n) (h : f k = true) :
+    (List.range (n + 1)).any f = true := by
+  rw [List.any_eq_true]
+  exact ⟨k, List.mem_range.2 (by omega), h⟩
+
+theorem globItems_lits (p t : Str) : globItems (p.map .lit) t = decide (t = p) := by
+  induction p generalizing t with
+  | nil => cases t <;> simp [globItems]
+  | cons c tl ih =>
+    cases t with
+    | nil => simp [globItems]
+    | cons d ts =>
+      simp only [List.map_cons, globItems, GItem.matches, ih]
+      by_cases h : c = d <;> simp [h, eq_comm]
+
+theorem globItems_lits_star (p t : Str) : globItems (p.map .lit ++ [.star]) t = p.isPrefixOf t := by
+  induction p generalizing t with
+  | nil =>
+    simp only [List.map_nil, List.nil_append, globItems, List.isPrefixOf]
+    exact any_range_succ_of _ _ t.length (Nat.le_refl _) (by simp)
+  | cons c tl ih =>
+    cases t with
+    | nil => simp [globItems, List.isPrefixOf]
+    | cons d ts =>
+      simp only [List.map_cons, List.cons_append, globItems, GItem.matches, ih, List.isPrefixOf]
+      by_cases h : c = d <;> simp [h]
+
+theorem globItems_star_lits (p t : Str) : globItems (.star :: p.map .lit) t = p.isSuffixOf t := by
+  simp only [globItems, globItems_lits]
+  rw [Bool.eq_iff_iff, List.any_eq_true, List.isSuffixOf_iff_suffix]
+  constructor
+  · rintro ⟨k, _, hk⟩
+    have hk' : t.drop k = p := by simpa using hk
+    rw [← hk']; exact List.drop_suffix k t
+  · intro h
+    refine ⟨t.length - p.length, List.mem_range.2 (by omega), ?_⟩
+    simpa using (List.suffix_iff_eq_drop.1 h).symm
+
+theorem any_prefix_drop (x t : Str) :
+    (List.range (t.length + 1)).any (fun k => x.isPrefixOf (t.drop k)) = isInfix x t := by
+  induction t with
+  | nil => cases x <;> simp [isInfix, List.isPrefixOf, List.range_succ]
+  | cons c tl ih =>
+    rw [List.length_cons, List.range_succ_eq_map, List.any_cons, List.any_map]
+    simp only [isInfix, List.drop_zero]
+    congr 1
+
+theorem globItems_star_lits_star (p t : Str) :
+    globItems (.star :: (p.map .lit ++ [.star])) t = isInfix p t := by
+  simp only [globItems, globItems_lits_star]
+  exact any_prefix_drop p t
+
+
+
+/-- a character that stands for itself inside a class, wherever it is placed -/
+def isClassPlain (c : Char) : Bool := !isClassOdd c && c != '-' && c != ']' && c != '!'
+
+theorem parseGlobGo_skip (a rest : Str) : parseGlobGo (a ++ rest) a.length = parseGlobGo rest 0 := by
+  induction a with
+  | nil => simp
+  | cons c tl ih => simpa [parseGlobGo] using ih
+
+theorem classRanges_plain (cs : Str) (h : cs.all isClassPlain = true) (first : Bool) :
+    classRanges cs first = some (cs.map fun c => (c, c)) := by
+  induction cs generalizing first with
+  | nil => simp [classRanges]
+  | cons c tl ih =>
+    simp only [List.all_cons, Bool.and_eq_true] at h
+    obtain ⟨hc, htl⟩ := h
+    have ih' := ih htl false
+    simp only [isClassPlain, Bool.and_eq_true, Bool.not_eq_true', bne_iff_ne, ne_eq] at hc
+    obtain ⟨⟨⟨ho, hm⟩, _⟩, _⟩ := hc
+    cases tl with
+    | nil => simp [classRanges, ho, hm]
+    | cons d tl2 =>
+      have hd : d ≠ '-' := by
+        simp only [List.all_cons, Bool.and_eq_true, isClassPlain, Bool.not_eq_true', bne_iff_ne, ne_eq] at htl
+        exact htl.1.1.1.2
+      unfold classRanges
+      split
+      · rename_i heq; simp at heq
+      · rename_i heq; simp only [List.cons.injEq] at heq; exact absurd heq.2.1 hd
+      · rename_i heq
+        simp only [List.cons.injEq] at heq
+        obtain ⟨rfl, rfl⟩ := heq
+        simp [ho, hm, ih']
+
+theorem closeIdx_plain (cs rest : Str) (h : cs.all isClassPlain = true) :
+    closeIdx (cs ++ ']' :: rest) = some cs.length := by
+  induction cs with
+  | nil => simp [closeIdx]
+  | cons c tl ih =>
+    simp only [List.all_cons, Bool.and_eq_true] at h
+    have hc : c ≠ ']' := by
+      have := h.1
+      simp only [isClassPlain, Bool.and_eq_true, bne_iff_ne, ne_eq] at this
+      exact this.1.2
+    simp [closeIdx, hc, ih h.2]
+
+theorem parseGlobGo_skip_close (a rest : Str) :
+    parseGlobGo (a ++ ']' :: rest) (a.length + 1) = parseGlobGo rest 0 := by
+  have := parseGlobGo_skip (a ++ [']']) rest
+  simpa using this
+
+theorem classEnd_plain (cs rest : Str) (h : cs.all isClassPlain = true) (hne : cs ≠ []) :
+    classEnd (cs ++ ']' :: rest) = some cs.length := by
+  cases cs with
+  | nil => exact absurd rfl hne
+  | cons c tl =>
+    have hc := h
+    simp only [List.all_cons, Bool.and_eq_true, isClassPlain, bne_iff_ne, ne_eq] at hc
+    obtain ⟨⟨⟨⟨_, _⟩, h2⟩, h3⟩, _⟩ := hc
+    have := closeIdx_plain (c :: tl) rest h
+    simp only [List.cons_append] at this
+    simp [classEnd, h2, h3, this]
+
+theorem classEnd_neg_plain (cs rest : Str) (h : cs.all isClassPlain = true) (hne : cs ≠ []) :
+    classEnd ('!' :: (cs ++ ']' :: rest)) = some (cs.length + 1) := by
+  cases cs with
+  | nil => exact absurd rfl hne
+  | cons c tl =>
+    have hc := h
+    simp only [List.all_cons, Bool.and_eq_true, isClassPlain, bne_iff_ne, ne_eq] at hc
+    obtain ⟨⟨⟨⟨_, _⟩, h2⟩, h3⟩, _⟩ := hc
+    have := closeIdx_plain (c :: tl) rest h
+    simp only [List.cons_append] at this
+    simp [classEnd, h2, this]
+
+/-- the members of a class written as plain characters -/
+def singles (cs : Str) : List (Char × Char) := cs.map fun c => (c, c)
+
+theorem parseGlobGo_class (cs rest : Str) (h : cs.all isClassPlain = true) (hne : cs ≠ []) :
+    parseGlobGo ('[' :: (cs ++ ']' :: rest)) 0 = (parseGlobGo rest 0).map (.set false (singles cs) :: ·) := by
+  have htake : (cs ++ ']' :: rest).take cs.length = cs := by simp
+  cases cs with
+  | nil => exact absurd rfl hne
+  | cons c tl =>
+    have hc := h
+    simp only [List.all_cons, Bool.and_eq_true, isClassPlain, bne_iff_ne, ne_eq] at hc
+    obtain ⟨⟨⟨⟨_, _⟩, _⟩, h3⟩, _⟩ := hc
+    have hr := classRanges_plain (c :: tl) h true
+    have he := classEnd_plain (c :: tl) rest h hne
+    simp only [List.cons_append] at he htake
+    simp only [parseGlobGo, List.cons_append, he, htake]
+    simp [h3, hr, parseGlobGo_skip_close, singles]
+
+theorem parseGlobGo_negclass (cs rest : Str) (h : cs.all isClassPlain = true) (hne : cs ≠ []) :
+    parseGlobGo ('[' :: '!' :: (cs ++ ']' :: rest)) 0 = (parseGlobGo rest 0).map (.set true (singles cs) :: ·) := by
+  have htake : ('!' :: (cs ++ ']' :: rest)).take (cs.length + 1) = '!' :: cs := by simp
+  have hr := classRanges_plain cs h true
+  have he := classEnd_neg_plain cs rest h hne
+  have hne' : cs.isEmpty = false := by cases cs <;> simp_all
+  simp only [parseGlobGo, he, htake]
+  simp [hr, parseGlobGo_skip_close, singles, hne']
+
+theorem set_singles_matches (neg : Bool) (cs : Str) (c : Char) :
+    (GItem.set neg (singles cs)).matches c = (cs.contains c != neg) := by
+  simp only [GItem.matches, singles, List.any_map]
+  congr 1
+  induction cs with
+  | nil => simp
+  | cons d tl ih =>
+    simp only [List.any_cons, List.contains_cons, ih, Function.comp]
+    congr 1
+    by_cases hd : c = d
+    · subst hd; simp
+    · have : c.toNat ≠ d.toNat := fun e => hd (Char.toNat_inj.1 e)
+      have h2 : (c == d) = false := by simpa using hd
+      rw [h2]
+      simp only [Bool.and_eq_false_iff, decide_eq_false_iff_not]
+      omega
+
+theorem globItems_lits_append (p : Str) (items : List GItem) (t : Str) :
+    globItems (p.map .lit ++ items) (p ++ t) = globItems items t := by
+  induction p with
+  | nil => simp
+  | cons c tl ih => simp [globItems, GItem.matches, ih]
+
+theorem globItems_star_true (u : Str) : globItems [.star] u = true := by
+  simp only [globItems]
+  exact any_range_succ_of _ _ u.length (Nat.le_refl _) (by simp)
+
 end Cel.XlateValue
